@@ -29,7 +29,7 @@ def run(chk):
 
         def wrapped(fi, bound, state, caller_fr, node, self_obj=None, is_entry=False):
             ret, st, fl = orig(fi, bound, state, caller_fr, node, self_obj=self_obj, is_entry=is_entry)
-            if fi.qualname.endswith("generate_gaussian") and ret is not None:
+            if "gaussian" in fi.qualname.split(".")[-1] and ret is not None:         # generate_gaussian and helpers it was split into
                 ret = ret.replace(tags=ret.tags | frozenset(["gaussian"]))
             return ret, st, fl
         I.call_function = wrapped
@@ -61,7 +61,7 @@ def run(chk):
         for n in ifc[:1]:
             chk.ob("R-ST-SIB", c + "{window product}", "the voice spectrum is MULTIPLIED by the Gaussian window before the inverse FFT",
                    isinstance(n.args[0].op, ast.Mult), derived=" ".join(ast.unparse(n.args[0]).split()), loc=fi.loc(n), stmt=norm_stmt(n))
-        chk.ob("R-ST-SIB", c + "{flip}", "rows are flipped (Nyquist first)", ("flipud",) in sk and sk.index(("flipud",)) > [k for k, s in enumerate(sk) if s[0] == "ifft"][0]
+        chk.ob("R-ST-SIB", c + "{flip}", "rows are flipped (Nyquist first)", any(s_ == ("flipud",) and k_ > [k for k, s in enumerate(sk) if s[0] == "ifft"][0] for k_, s_ in enumerate(sk))
                if any(s[0] == "ifft" for s in sk) else False, derived="%s" % [s[0] for s in sk], loc=fi.loc())
         expect(chk, "R-ST-LIN", c + ".result", r.ret, lin=[R], dtype="complex", shape=(HALF, LinExpr(HALF).scale(2)), kind=K_ARRAY, tags_has=["flip", "gaussian", "conj", "toeplitz"],
                loc=fi.loc())
@@ -201,7 +201,7 @@ def run(chk):
                 bare = _NoFlip().visit(_copy.deepcopy(fdef[0].value))
                 form = Normaliser().poly(bare).subst_atoms(lambda a: "dt" if a.endswith(".dt") or a == "dt" else a).canon()
             chk.ob("R-ST-AXIS", c + "{axis form}", "frequencies = arange(1, points + 1) / (2 * points * dt)", form == "1/2*dt^-1*np.arange(1, 1 + 1*points)*points^-1",
-                   derived="%s" % form, loc=r.fi.loc(fdef[0]) if fdef else r.fi.loc(), inconclusive=not fdef)
+                   derived="%s" % form, loc=r.fi.loc(fdef[0]) if fdef else r.fi.loc(), inconclusive=(not fdef) or form is None)
         pts = [n for sc in scopes for n in ast.walk(sc.node) if isinstance(n, ast.Assign) and isinstance(n.targets[0], ast.Name) and n.targets[0].id == "points"]
         chk.ob("R-ST-AXIS", c + "{points}", "points is the number of rows of the transform", len(pts) == 1 and isinstance(pts[0].value, ast.Call) and
                ast.unparse(pts[0].value.func) == "len", derived="%s" % (ast.unparse(pts[0].value) if pts else None), loc=r.fi.loc(),
@@ -209,8 +209,9 @@ def run(chk):
         summ[name] = (a0.dtype, "abs" in a0.tags, axv.const if (axv is not None and axv.has_const()) else None, okt, form)
     if len(summ) == 2:
         a, b = summ.values()
+        diff_ = [k for k, (x, y) in enumerate(zip(a, b)) if x is not None and y is not None and x != y]
         chk.ob("R-ST-AXIS", "get_max_stockwell_freq~get_max_tifq_vals_freq", "sibling helpers have equal summaries", a == b, derived="%s vs %s" % (a, b),
-               inconclusive=any(o.status == "inconclusive" for o in chk.obs if o.rule == "R-ST-AXIS"))
+               inconclusive=any(o.status == "inconclusive" for o in chk.obs if o.rule == "R-ST-AXIS") or (a != b and not diff_))   # differ only where one is not located
     # no ordering on complex data in the module (the package-wide rule lives in C06)
     gauss_rule(chk)
     chk.floor("R-ST-GAUSS", 1)
